@@ -399,7 +399,6 @@ def script_for(mode, templates):
 STRICT = re.compile(r"[<>\"']")
 URLIZE_RE = re.compile(r"<a href=\"[^\"<>']*\"(?: rel=\"[^\"<>']*\")?(?: target=\"[^\"<>']*\")?>|</a>")
 XMLATTR_RE = re.compile(r" ?[^\s/>=<\"']+=\"[^\"<>']*\"")
-TOJSON_RE = re.compile(r"\"(?:[^\"\\<>']|\\.)*\"")
 MARKER = re.compile(r"'|<T>|\"T'|>T<|'T\"", re.I)
 ESCAPED = re.compile(r"&lt;|&gt;|&#34;|&#39;|&amp;|\\u003c|%3C")
 
@@ -527,12 +526,12 @@ def minimise(mode, frame, val, chain, kind):
     is reported as the frame not escaping the filter result."""
     out_frame = FRAMES["out"]
     hole = "@F@" in frame.templates["t.html"]
-    cands = []
+    cands = [(out_frame, "x", [], "context-string"), (out_frame, LIT, [], "literal")]
     v0 = frame.vals[0] if frame.vals else "x"
     if not hole:
         cands.append((frame, v0, [], None))
         if not frame.vals:
-            cands.append((frame, LIT, [], None))
+            cands.append((frame, LIT, [], "literal"))
     for c in chain:
         cands.append((out_frame, "x", [c], None))
         cands.append((out_frame, LIT, [c], None))
@@ -568,17 +567,6 @@ def minimise(mode, frame, val, chain, kind):
 
 # --------------------------------------------------------------------------- shards
 
-def d1_carriers(level, only_filter=None):
-    """depth-1 carriers: (value-extras aware) list of (vals_extra, carrier)."""
-    out = []
-    for n, f in _filters().items():
-        if only_filter is not None and n != only_filter:
-            continue
-        for c in filter_shapes(n, f, level):
-            out.append(c)
-    return out
-
-
 def chunks(xs, n):
     k = max(1, (len(xs) + n - 1) // n)
     return [xs[i:i + k] for i in range(0, len(xs), k)]
@@ -595,16 +583,16 @@ def shard_d1(arg):
     elif what == "methods":
         carriers = method_carriers()
         extra = []
-    elif what == "none":
-        carriers = [None]
-        extra = []
     else:
         carriers = filter_shapes(what, _filters()[what], level)
         extra = extra_values(what) if frame.vals is None else []
     for v in list(frame.vals if frame.vals is not None else vals) + extra:
         for c in carriers:
             for mode in modes:
-                run_case(p, mode, frame, v, [c] if c else [])
+                run_case(p, mode, frame, v, [c])
+    fam = ("output_x_carrier" if frame_name == "out" else "filter_hole_x_filter" if "@F@" in frame.templates["t.html"]
+           else "markup_value_x_carrier" if frame.vals is not None else "frame_x_carrier")
+    p.count("cases_" + fam, p.evals)
     return p
 
 
@@ -662,6 +650,10 @@ def shard_d2(arg):
             for c2 in shapes:
                 for mode in modes:
                     run_case(p, mode, frame, v, [c1, c2])
+    p.count("cases_carrier_x_carrier", p.evals)
+    if "abs" in outers:  # count each inner carrier once, not once per outer group
+        p.count("inner_representatives", len(reps))
+        p.count("inner_representatives_dropped_by_cap", total - len(reps))
     return p
 
 
@@ -674,6 +666,7 @@ def shard_frames(arg):
         for v in vals:
             for mode in modes:
                 run_case(p, mode, frame, v, [])
+    p.count("cases_frame_x_value", p.evals)
     return p
 
 
@@ -739,9 +732,16 @@ def run(ctx: core.Ctx):
         "modes": len(MODES), "argument_tuple_length": 2 if q else 4,
         "filter_shapes": len(all_filter_shapes(lvl)), "op_carriers": len(op_carriers()),
         "method_carriers": len(method_carriers()),
-        "depth2": "filter x filter with <=12 inner representatives per inner carrier (distinct result type/value), "
-                  "outer menu %s; frame x carrier on values x and literal" % ("minimal" if q else "short"),
+        "depth2": "carrier x carrier with <=%d inner representatives per inner carrier (distinct result type/value), "
+                  "outer menu %s, modes %s; frame x carrier on values x and literal: frames %s, modes %s; "
+                  "Markup-valued frame results and filter-hole frames x every carrier in modes %s" % (
+                      2 if q else 12, "minimal (arity<=1 tuples + diagonals)" if q else "short (arity<=2 tuples)",
+                      list(d6_modes), d5_frames if q else "all %d" % len(d5_frames), list(qmodes), list(qmodes)),
     }
+    if ctx.counters.get("inner_representatives_dropped_by_cap"):
+        ctx.assumptions.append("carrier x carrier: %d inner result classes beyond the per-carrier cap were not used as "
+                               "inner expressions (thinning, stated in bounds)"
+                               % ctx.counters["inner_representatives_dropped_by_cap"])
 
 
 def _dispatch(arg):
